@@ -107,49 +107,60 @@ def run(ctx):
     # ---- (b) real crypto: both sides and the independent implementation ----------------------------
     n_real = lead_real = 0
     rk = uuid.UUID("d778c271-9025-9a82-f6dc-b8960b8ad8c5")
+
+    def real_case(hn, mode, l2, plen, small_group, scenario=None):
+        nonlocal n_real, lead_real
+        sa = "DH" if mode.startswith("DH") or mode == "nonce" else mode
+        if mode == "DHsmall":
+            kl, p, gg = small_group
+            sp = refimpl.ffc_params(kl, p, gg)
+        elif sa == "DH":
+            sp = refimpl.ffc_params(256, refimpl.RFC5114_P, refimpl.RFC5114_G)
+        else:
+            sp = b""
+        seed_env = gen.make_env(kdf_parameters=gen.kdf_params(hn), l2_key=l2, l1_key=b"", secret_algorithm=sa, secret_parameters=sp, private_key_length=plen)
+        if mode == "nonce":
+            env_s = seed_env
+        else:
+            pub = refimpl.group_public_key(hn.lower(), l2, sa, sp, plen)
+            env_s = gen.make_env(kdf_parameters=seed_env.kdf_parameters, l2_key=pub, l1_key=b"", flags=1, secret_algorithm=sa, secret_parameters=sp, private_key_length=plen)
+        with toycrypto.recording() as log:
+            try:
+                kek, kid = env_s.new_kek()
+                kek_r = seed_env.get_kek(kid)
+            except ValueError as e:
+                # a private scalar ≡ 0 for a tiny DH exponent etc. cannot happen here; EC scalars out of range can
+                ctx.notes.append(f"real {mode}/{hn}: {e}")
+                return
+            draw = log.urandom[0]
+        n_real += 1
+        if mode == "nonce":
+            indep = refimpl.kek_nonce(hn.lower(), l2, kid.key_info)
+        else:
+            indep = refimpl.kek_public(hn.lower(), sa, draw, env_s.l2_key)
+            indep_r = refimpl.kek_public(hn.lower(), sa, refimpl.group_private_key(hn.lower(), l2, sa, plen), kid.key_info)
+            if indep_r != indep:
+                ctx.violation("independent implementation: the two sides disagree (oracle defect?)", {"mode": mode, "hash": hn}, hx(indep_r), hx(indep))
+            z, _ = refimpl.shared_secret(sa, draw, env_s.l2_key)
+            if z[0] == 0 or kid.key_info[8:9] == b"\x00" or kid.key_info[8 + (len(kid.key_info) - 8) // 3 * 2: 9 + (len(kid.key_info) - 8) // 3 * 2] == b"\x00":
+                lead_real += 1
+        if not (kek == kek_r == indep):
+            ctx.violation("KEK disagreement with real crypto", {"mode": mode, "hash": hn, "draw": hx(draw), "l2": hx(l2), "secret_parameters": hx(sp)[:80], "private_key_length": plen,
+                                                                **({"scenario": scenario} if scenario else {})},
+                          f"sender={hx(kek)} receiver={hx(kek_r)}", f"independent={hx(indep)}")
+
     for hn in HASHES:
         for mode in ("nonce", "DH", "DHsmall", "ECDH_P256", "ECDH_P384"):
             reps = (3 if mode != "DH" else 1) * (4 if ctx.thorough else 1) * (12 if mode == "DHsmall" else 1)
             for _ in range(reps):
-                l2 = gen.rand_bytes(rng, 64)
-                sa = "DH" if mode.startswith("DH") or mode == "nonce" else mode
-                if mode == "DHsmall":
-                    kl, p, gg = rng.choice(SMALL_GROUPS)
-                    sp = refimpl.ffc_params(kl, p, gg)
-                elif sa == "DH":
-                    sp = refimpl.ffc_params(256, refimpl.RFC5114_P, refimpl.RFC5114_G)
-                else:
-                    sp = b""
-                plen = rng.choice([512, 256, 384, 16, 8])
-                seed_env = gen.make_env(kdf_parameters=gen.kdf_params(hn), l2_key=l2, l1_key=b"", secret_algorithm=sa, secret_parameters=sp, private_key_length=plen)
-                if mode == "nonce":
-                    env_s = seed_env
-                else:
-                    pub = refimpl.group_public_key(hn.lower(), l2, sa, sp, plen)
-                    env_s = gen.make_env(kdf_parameters=seed_env.kdf_parameters, l2_key=pub, l1_key=b"", flags=1, secret_algorithm=sa, secret_parameters=sp, private_key_length=plen)
-                with toycrypto.recording() as log:
-                    try:
-                        kek, kid = env_s.new_kek()
-                        kek_r = seed_env.get_kek(kid)
-                    except ValueError as e:
-                        # a private scalar ≡ 0 for a tiny DH exponent etc. cannot happen here; EC scalars out of range can
-                        ctx.notes.append(f"real {mode}/{hn}: {e}")
-                        continue
-                    draw = log.urandom[0]
-                n_real += 1
-                if mode == "nonce":
-                    indep = refimpl.kek_nonce(hn.lower(), l2, kid.key_info)
-                else:
-                    indep = refimpl.kek_public(hn.lower(), sa, draw, env_s.l2_key)
-                    indep_r = refimpl.kek_public(hn.lower(), sa, refimpl.group_private_key(hn.lower(), l2, sa, plen), kid.key_info)
-                    if indep_r != indep:
-                        ctx.violation("independent implementation: the two sides disagree (oracle defect?)", {"mode": mode, "hash": hn}, hx(indep_r), hx(indep))
-                    z, _ = refimpl.shared_secret(sa, draw, env_s.l2_key)
-                    if z[0] == 0 or kid.key_info[8:9] == b"\x00" or kid.key_info[8 + (len(kid.key_info) - 8) // 3 * 2: 9 + (len(kid.key_info) - 8) // 3 * 2] == b"\x00":
-                        lead_real += 1
-                if not (kek == kek_r == indep):
-                    ctx.violation("KEK disagreement with real crypto", {"mode": mode, "hash": hn, "draw": hx(draw), "l2": hx(l2), "secret_parameters": hx(sp)[:80], "private_key_length": plen},
-                                  f"sender={hx(kek)} receiver={hx(kek_r)}", f"independent={hx(indep)}")
+                real_case(hn, mode, gen.rand_bytes(rng, 64), rng.choice([512, 256, 384, 16, 8]), rng.choice(SMALL_GROUPS))
+    # ---- (b0) ONE L2 seed (one group key) used under every KDF hash in turn, in one process: whatever the library keeps between
+    #      calls, each (seed, hash) pair must still give the KEK of the independent implementation
+    for mode in ("nonce", "DHsmall", "ECDH_P256"):
+        l2 = gen.rand_bytes(rng, 64)
+        grp = rng.choice(SMALL_GROUPS)
+        for hn in HASHES + HASHES[::-1]:
+            real_case(hn, mode, l2, 256, grp, scenario="one seed, every hash in turn")
     # ---- (b') ECDH ephemeral keys whose public point has special leading octets (0x00, 0x04 = the X9.62 prefix, 0xFF) in X or Y:
     #      small scalars found once by walking multiples of the generator; the stored point must be exactly (X, Y) at full width
     special = {"ECDH_P256": {"y00": 43, "x04": 106, "xff": 172, "y04": 349, "x00": 379, "x0404": 41132},
@@ -232,15 +243,19 @@ def replay(ctx, payload):
     print("recorded input:", v)
     if "draw" not in v:
         return False
-    hn, mode = v["hash"], v["mode"]
+    mode = v["mode"]
     sa = "DH" if mode.startswith("DH") or mode == "nonce" else mode
     l2, draw, sp, plen = bytes.fromhex(v["l2"]), bytes.fromhex(v["draw"]), bytes.fromhex(v["secret_parameters"].replace("-", "")), v["private_key_length"]
-    seed_env = gen.make_env(kdf_parameters=gen.kdf_params(hn), l2_key=l2, l1_key=b"", secret_algorithm=sa, secret_parameters=sp, private_key_length=plen)
-    env_s = seed_env if mode == "nonce" else gen.make_env(kdf_parameters=seed_env.kdf_parameters, l2_key=refimpl.group_public_key(hn.lower(), l2, sa, sp, plen), l1_key=b"",
-                                                          flags=1, secret_algorithm=sa, secret_parameters=sp, private_key_length=plen)
-    with toycrypto.recording(lambda n: draw[:n]):
-        kek, kid = env_s.new_kek()
-        kek_r = seed_env.get_kek(kid)
-    indep = refimpl.kek_nonce(hn.lower(), l2, kid.key_info) if mode == "nonce" else refimpl.kek_public(hn.lower(), sa, draw, env_s.l2_key)
-    print(f"sender={hx(kek)} receiver={hx(kek_r)} independent={hx(indep)}")
-    return kek == kek_r == indep
+    ok = True
+    # a recorded history ("one seed, every hash in turn") is replayed as that history; a single case as itself
+    for hn in ((HASHES + HASHES[::-1]) if v.get("scenario") else [v["hash"]]):
+        seed_env = gen.make_env(kdf_parameters=gen.kdf_params(hn), l2_key=l2, l1_key=b"", secret_algorithm=sa, secret_parameters=sp, private_key_length=plen)
+        env_s = seed_env if mode == "nonce" else gen.make_env(kdf_parameters=seed_env.kdf_parameters, l2_key=refimpl.group_public_key(hn.lower(), l2, sa, sp, plen), l1_key=b"",
+                                                              flags=1, secret_algorithm=sa, secret_parameters=sp, private_key_length=plen)
+        with toycrypto.recording(lambda n: draw[:n]):
+            kek, kid = env_s.new_kek()
+            kek_r = seed_env.get_kek(kid)
+        indep = refimpl.kek_nonce(hn.lower(), l2, kid.key_info) if mode == "nonce" else refimpl.kek_public(hn.lower(), sa, draw, env_s.l2_key)
+        print(f"{hn}: sender={hx(kek)} receiver={hx(kek_r)} independent={hx(indep)}")
+        ok = ok and kek == kek_r == indep
+    return ok
